@@ -696,3 +696,10 @@ def m_ref_eq(I, fr, callee, m, args):
     if m.group(3) == 'ne':
         return Sc(1 - r.e, 'bool') if r.concrete else sc_from(z3.Not(r.z()), 'bool')
     return r
+
+
+@model(r'^<(.*) as PartialEq(<.*>)?>::ne$')
+def m_default_ne(I, fr, callee, m, args):
+    """PartialEq::ne default method: !self.eq(other) (types that override ne do not occur in the crates)"""
+    r = I.do_call(fr, '<%s as PartialEq%s>::eq' % (m.group(1), m.group(2) or ''), args)
+    return Sc(1 - r.e, 'bool') if r.concrete else sc_from(z3.Not(r.z()), 'bool')
